@@ -6,7 +6,7 @@ CONSTANTS
   SelectMode = "any"
   LegacyBreak = FALSE
   MetricDefs <- TreeMetrics
-  SlotDefs <- TreeSlots5
+  SlotDefs <- TreeSlots4
   Sizes <- Sz13
   WWs = {1}
   MWs = {1}
